@@ -379,6 +379,12 @@ class Repo(object):
         return sorted((m.relpath, m.digest) for m in self.modules.values())
 
 
+def clone_expr(node):
+    """copy of an expression without the _parent back-links (deepcopy would follow them
+    and copy the whole module)"""
+    return ast.parse(ast.unparse(node), mode="eval").body
+
+
 def enclosing_function_node(node):
     p = getattr(node, "_parent", None)
     while p is not None and not isinstance(p, (ast.FunctionDef, ast.AsyncFunctionDef, ast.Lambda)):
